@@ -202,7 +202,7 @@ def c13(report):
     report.nontrivial_rule = "warm_start edges (cold arms present) replayed; status, copied state and cold_arms compared"
     ops = {"fit", "partial_fit", "add_arm", "remove_arm", "warm_start", "predict_expectations"}
     jobs = []
-    feats = ["std", "dup", "zero", "far"] if report.tier == "thorough" else ["std", "dup", ["zero", "far"][report.seed % 2]]
+    feats = ["std", "dup", "zero", "far"] if report.tier == "thorough" else ["std", "dup"] + ([["zero", "far"][report.seed % 4 // 2]] if report.seed % 2 == 0 else [])
     for feat in feats:
         over = dict(Feat=feat, QueryRows={0}, Labels={"a", "b", "c", "d"}, InitArms=["a", "b", "c"], MaxBatch=1,
                     Quantiles={(0, 1), (1, 4), (1, 2), (1, 1)}, Rewards={1, 3})
@@ -225,8 +225,13 @@ def c13(report):
     ljobs = lin_jobs(report.tier, report.seed, ops={"fit", "partial_fit", "warm_start", "predict_expectations"}, checks=("state",),
                      tag="-c13", over=dict(InitArms=["a", "b", "c"], MaxDepth=4, QuerySets={((1, 1),)} ), scaled=False)
     for job in ljobs:
-        if job["consts"]["D"] == 1:
+        d = job["consts"]["D"]
+        if d == 1:
             job["consts"]["QuerySets"] = {((1,),)}
+        if report.tier == "quick":      # few distinct rows: the subject is which arm is copied
+            job["consts"]["Ctx"] = set(sorted(job["consts"]["Ctx"])[:2])
+            job["consts"]["Rewards"] = {1} if job["mode"] == "bfs" else {-2, 1}
+            job["consts"]["MaxBatch"] = 1
     ecf.defer(ljobs, either(by_clause("state.", "call.exception", ops={"warm_start"}), by_clause("state.cold_arms", "state.status")))
     ecf.flush(report)
     big = dict(Labels={"a", "b", "c", "d"}, InitArms=["a", "b", "c", "d"], Ops=set(ops), MaxBatch=1, Rewards={1, 3},
@@ -241,7 +246,7 @@ def c14(report):
     jobs = []
     bins = ["thr", "flip", "ge2"] if report.tier == "thorough" else [["thr", "flip", "ge2"][report.seed % 3], "thr"]
     for b in dict.fromkeys(bins):
-        rewards = {0, 1} if b == "flip" else {0, 2, 3}
+        rewards = {0, 1} if b == "flip" else ({0, 2, 3} if report.tier == "thorough" else {2, 3})
         over = dict(InitBin=b, Rewards=rewards, NewBins={"keep", "flip" if b != "flip" else "thr"}, QueryRows={0})
         bj = cf_jobs(["ts"], report.tier, report.seed, over=over, tag="-" + b)
         for job in bj:        # integer-typed 0/1 rewards must be converted like any others
@@ -343,7 +348,8 @@ def c03(report):
                               "result was compared with the TLC-computed documented neighbourhood")
     nps = ["radius", "knearest"]
     _parallel_exhaustive(report, nps)
-    lps = ["eg", "ucb1", "ts", "softmax"] if report.tier == "thorough" else ["eg", "ucb1", ["ts", "softmax", "pop"][report.seed % 3]]
+    lps = ["eg", "ucb1", "ts", "softmax", "lin-ucb", "lin-ts"] if report.tier == "thorough" else \
+        ["eg", "ucb1", ["ts", "softmax", "pop"][report.seed % 3], "lin-ucb"]
     jobs = enb.jobs_for(nps, lps, report.tier, report.seed, nb_variants(report.tier, report.seed, nps))
     enb.run_jobs(report, jobs, nb_filter(nps, *NB_TRACE))
     _nb_counts(report)
@@ -359,7 +365,7 @@ def c11(report):
         enb.negative(report, "lsh", "LshNoOffset", "Inv_C11_Tables")
     if report.tier == "thorough" or not report.seed % 2:
         enb.negative(report, "lsh", "LshKeepTables", "Prop_C07_FitIsFresh|Inv_C11_Tables")
-    lps = ["eg", "ucb1", "ts"] if report.tier == "thorough" else ["eg", ["ucb1", "ts"][report.seed % 2]]
+    lps = ["eg", "ucb1", "ts", "lin-ucb"] if report.tier == "thorough" else ["eg", ["ucb1", "ts", "lin-ucb"][report.seed % 3]]
     jobs = enb.jobs_for(["lsh"], lps, report.tier, report.seed,
                         nb_variants(report.tier, report.seed, ["lsh"], want=3, always=(4,)),
                         n=60 if report.tier == "thorough" else 14)
